@@ -1,6 +1,7 @@
 package p06
 
 import (
+	"github.com/btcsuite/btcd/btcec/v2"
 	"github.com/btcsuite/btcd/txscript/v2"
 	"verifharness/core"
 )
@@ -68,6 +69,22 @@ func genRegress() []caseSpec {
 		}
 	}
 
+	// F-C06-e (fixed): NULLFAIL with a public key / signature that btcec cannot parse
+	offCurve := offCurveKey(keys[1].comp)
+	for _, w := range []int{wBare, wP2SH, wP2WSH} {
+		w := w
+		for _, fl := range []txscript.ScriptFlags{std, consensusAll} {
+			sc := cat(pushBytes(offCurve), []byte{0xac, 0x91})
+			add("F-C06-e:offcurve-key", w, fl, sc, func(b *builtSpend) [][]byte {
+				return [][]byte{b.ecdsaSig(sigPlan{key: keys[1], ht: 1}, sc, keys)}
+			})
+			sc2 := cat(pushBytes(keys[1].comp), []byte{0xac, 0x91})
+			add("F-C06-e:zero-r", w, fl, sc2, func(b *builtSpend) [][]byte {
+				return [][]byte{{0x30, 0x06, 0x02, 0x01, 0x00, 0x02, 0x01, 0x01, 0x01}}
+			})
+		}
+	}
+
 	// F-C06-d: signature encodings accepted by Core's lax parser only (no DERSIG)
 	p2pk := cat(pushBytes(keys[1].comp), []byte{0xac})
 	for _, v := range []int{3, 4, 2, 5, 6, 1} {
@@ -86,4 +103,17 @@ func genRegress() []caseSpec {
 		})
 	}
 	return out
+}
+
+// offCurveKey turns a compressed key into a correctly formatted 33-byte key whose x coordinate has no
+// point on the curve.
+func offCurveKey(comp []byte) []byte {
+	k := append([]byte{}, comp...)
+	for i := 0; i < 256; i++ {
+		k[32] = byte(i)
+		if _, err := btcec.ParsePubKey(k); err != nil {
+			return k
+		}
+	}
+	panic("no off-curve key found")
 }
